@@ -19,7 +19,7 @@ pub struct Unit {
     pub len: usize,
 }
 
-fn pos_tails() -> Vec<Vec<PosItem>> {
+pub fn pos_tails() -> Vec<Vec<PosItem>> {
     let stricts = [Strict::Any, Strict::Strict, Strict::NonStrict];
     let kinds = [PosKind::Req, PosKind::Opt, PosKind::Many, PosKind::Some];
     let mut out: Vec<Vec<PosItem>> = vec![vec![]];
